@@ -728,7 +728,7 @@ def dataset_fn(fn_obj, name, n_int_params):
     fn = Fn(f, l0, node)
     ds, size, band = args
     fn.params = set(args)
-    fn.datasets[ds] = coq_name(ds) + "_im"
+    fn.datasets[ds] = ds.rstrip("_") + "_im"
     fn.env[size] = (coq_name(size), INT)
     fn.band_param = band
     return fn, args, (f, f"lines {l0}-{l0 + n - 1} ({name})", sha1_of(src))
